@@ -56,11 +56,19 @@ impl PackedJoinKeys {
         let mut out: Option<(i64, i64)> = None;
         for stats in self.table_stats.values() {
             if let Some(cs) = stats.column_stats.get(&key) {
-                if let (Some(lo), Some(hi)) = (cs.min_i64, cs.max_i64) {
-                    out = Some(match out {
-                        None => (lo, hi),
-                        Some((a, b)) => (a.min(lo), b.max(hi)),
-                    });
+                match (cs.min_i64, cs.max_i64) {
+                    (Some(lo), Some(hi)) => {
+                        out = Some(match out {
+                            None => (lo, hi),
+                            Some((a, b)) => (a.min(lo), b.max(hi)),
+                        });
+                    }
+                    // A same-named column WITHOUT integer bounds (a VARCHAR or
+                    // DOUBLE column of another table, or an integer column
+                    // whose footers carry no statistics) may be the one the
+                    // join key refers to: widening only covers tables that
+                    // have bounds, so there is no proof — decline.
+                    _ => return None,
                 }
             }
         }
